@@ -1,24 +1,30 @@
 -------------------------- MODULE SortOrderConsts --------------------------
-(* value domains for SortOrder.  Numbers are in units of 1e-5.  String order
-   (byte order): "10" < "9" < "A" < "a" < "b"  -> ord 1..5.
-   The harness concretises: Num(v,_) -> v * 1e-5 (an integer when v is a multiple of 100000),
-   Str(3) -> "A", Str(4) -> "a", Str(5) -> "b", NumStr(1, 1000000) -> "10", NumStr(2, 900000) -> "9". *)
+(* value domains for SortOrder.  Numbers are in units of 1e-5.  Strings, in byte order (ord 1..10):
+     "1-2" < "1.2.3" < "10" < "10.0.0.7" < "10.0.0.9" < "2024-01-17" < "9" < "A" < "a" < "b"
+   "10" and "9" convert to floats (NumStr); "1-2", "1.2.3", "10.0.0.7", "10.0.0.9", "2024-01-17" only LOOK numeric
+   (NumLike); "A", "a", "b" are words.  The harness concretises Num(v,_) -> v * 1e-5 (an integer when v is a multiple
+   of 100000) and every string by its ord (STR_OF_ORD in checks/c05.py). *)
 EXTENDS SortOrder
 N0 == Num(0, 0)
 N3 == Num(3, 0)          \* 0.00003
 N6 == Num(6, 0)          \* 0.00006
 N12 == Num(12, 0)        \* 0.00012 : N0 ~ N6 ~ N12 under tolerance 10 but N0 < N12
 Nneg == Num(-100000, 0)  \* -1
-N9 == Num(900000, 2)     \* 9  renders "9"
-N10 == Num(1000000, 1)   \* 10 renders "10"
-S10 == NumStr(1, 1000000)
-S9 == NumStr(2, 900000)
-SA == Str(3)
-Sa == Str(4)
-Sb == Str(5)
-ValsAuto == {N0, N3, N6, N12, Nneg, N9, N10, S10, S9, SA, Sa, Sb, Null}
-ValsSmall == {N0, N6, N12, S9, Sa, Null}
-ValsStr == {N9, N10, S10, S9, SA, Sa, Sb, Null}
+N9 == Num(900000, 7)     \* 9  renders "9"
+N10 == Num(1000000, 3)   \* 10 renders "10"
+L12 == NumLike(1)        \* "1-2"
+LVer == NumLike(2)       \* "1.2.3"
+S10 == NumStr(3, 1000000)
+LIp7 == NumLike(4)       \* "10.0.0.7"
+LIp9 == NumLike(5)       \* "10.0.0.9"
+LDate == NumLike(6)      \* "2024-01-17"
+S9 == NumStr(7, 900000)
+SA == Str(8)
+Sa == Str(9)
+Sb == Str(10)
+ValsAuto == {N0, N3, N6, N12, Nneg, N9, N10, S10, S9, SA, Sa, Sb, Null, L12, LIp7, LIp9, LDate}
+ValsSmall == {N0, N6, S9, LIp7, LDate, Null}
+ValsStr == {N9, N10, S10, S9, SA, Sa, Sb, Null, LVer, LIp7}
 OpsAuto == {"auto", "num"}
 OpsStr == {"str"}
 OpsAll == {"auto", "num", "str"}
